@@ -7,7 +7,7 @@ import (
 	"net/url"
 )
 
-//verif:harness id=C15 tier=quick,thorough witness=end bounds="legacy FindRoute on a shared router over the 5 template families of C09, methods GET/POST/PUT, every request path '/'+ up to 3 bytes over {/,a,b,c}; footprint monitor on every path"
+//verif:harness id=C15 tier=quick,thorough witness=end bounds="legacy FindRoute on a shared router over the 6 template families of C09, methods GET/POST/PUT, every request path '/'+ up to 3 bytes over {/,a,b,c}; footprint monitor on every path"
 func verifH_C15_router() {
 	fam := verifChoose("family", len(verifFamilies))
 	doc, _ := verifDoc(verifFamilies[fam], 0)
